@@ -39,8 +39,8 @@ def main(c):
     n = c.pick(400, 4000)
     for i in range(1, n):
         ys.append(round(-0.96 + 1.92 * i / n, 6))
-    ys += [0.5, -0.5, 0.84, -0.84, 0.8414, -0.8414, 0.02, -0.02]
-    ys = sorted(set(y for y in ys if abs(y) >= 0.02))
+    special = [0.5, 0.84, 0.8414, 0.02, 0.9]
+    ys = special + sorted(set(y for y in ys if abs(y) >= 0.02 and abs(y) not in special and y > 0))   # special points are judged first
     inp = "\n".join(repr(y) for y in ys + [-y for y in ys]) + "\n"
     rc, out, err = c.run([exe, "run"], input=inp)
     vals = {}
@@ -65,7 +65,7 @@ def main(c):
             c.count(1, (nm, y), True)
             why = None
             kind = None
-            if f != f2:
+            if abs(f - f2) > 1e-12 * max(1.0, abs(f)):
                 why, kind = "AndDerivative returns the value %r, the plain function %r" % (f2, f), "value"
             elif abs(fm + f) > 1e-12 * max(1.0, abs(f)):
                 why, kind = "not odd: f(%r) = %r, f(%r) = %r" % (y, f, -y, fm), "odd"
@@ -114,15 +114,18 @@ def main(c):
 
         def comp(f):
             par[f] = c.coq([f], timeout=900)
-        ths = [threading.Thread(target=comp, args=(f,)) for f in ("C26ProofsJ.v", "C26ProofsB.v", jodd)]
-        for t in ths:
-            t.start()
-        for t in ths:
-            t.join()
+        for group in (("C26ProofsJ.v", "C26ProofsJ2.v", "C26ProofsB.v", jodd), ("C26ProofsB2.v", "C26ProofsB3.v")):
+            ths = [threading.Thread(target=comp, args=(f,)) for f in group]
+            for t in ths:
+                t.start()
+            for t in ths:
+                t.join()
+            if not all(par[f].ok for f in group):
+                break
         results += list(par.values())
-        if all(r.ok for r in par.values()):
+        if all(r.ok for r in par.values()) and len(par) == 6:
             results.append(c.coq([props], timeout=600))
-    c.coverage["checker_cmd"] = "coqc -Q coq/lib VLib -R <scratch> C26 C26_gen.v C26Spec.v C26Proofs.v C26ProofsJ.v C26ProofsB.v %s %s (Coq 8.16.1, Coquelicot, Interval)" % (jodd, props)
+    c.coverage["checker_cmd"] = "coqc -Q coq/lib VLib -R <scratch> C26 C26_gen.v C26Spec.v C26Proofs.v C26ProofsJ.v C26ProofsJ2.v C26ProofsB.v C26ProofsB2.v C26ProofsB3.v %s %s (Coq 8.16.1, Coquelicot, Interval)" % (jodd, props)
     failed = [r for r in results if not r.ok]
     if failed:
         c.coverage["obligations"] = max(c.coverage["obligations"], 13)
